@@ -61,12 +61,11 @@ def build(case):
     f = case.f
     ds = f.ds
     out, rec = capture_run(case)
+    from vlib import refdesign
+    if not refdesign.identifiable(case):   # decided on the generator's own layout, not on matrices produced by the code under test
+        raise NotIdentifiable()
     if not np.all(np.isfinite(out.p_cov.values)):
-        raise NotIdentifiable()
-    Xd = rec["X"].toarray() * np.sqrt(np.abs(rec["w"]))[:, None]
-    Xd = Xd / np.maximum(np.linalg.norm(Xd, axis=0), 1e-300)
-    if np.linalg.matrix_rank(Xd, tol=1e-9) < Xd.shape[1] - (len(f.trans_att) if (f.double and "alpha" not in (case.fix or "").split("+")) else 0):
-        raise NotIdentifiable()
+        raise ValueError("non-finite p_cov although the configuration determines its unknowns")
     va = case.variance_arrays()
     fx, kw = fix_lit(case)
     nb = len([b for b in gen_fibre.BATHS if b in ds])
